@@ -472,3 +472,15 @@ def r13(ctx):
 
 
 RULES.append(("C15.R13", "T2", "a request expecting an empty response succeeds only when the raw object section is empty", r13))
+
+
+def r14(ctx):
+    """'anything else (malformed, foreign) neither completes the request nor reaches the handler': the object section is validated in
+    full before anything is delivered (C09.R6: the validating pass covers every header), and a fragment is assembled only from
+    segments of ONE source (C08.R1). Shared code."""
+    import c09, c08
+    c09.r6(ctx)
+    c08.r1(ctx)
+
+
+RULES.append(("C15.R14", "T5/T2", "responses are validated in full before delivery (C09.R6); fragments are assembled per source (C08.R1)", r14))
